@@ -4,6 +4,7 @@ import (
 	"flag"
 	"fmt"
 	"os"
+	"runtime/pprof"
 	"strings"
 )
 
@@ -92,7 +93,15 @@ func runAdhoc(args []string) int {
 	workers := fs.Int("workers", 16, "parallel workers")
 	verbose := fs.Bool("v", false, "verbose")
 	replayN := fs.Int("replay", 0, "number of witness paths to replay natively")
+	cpuprof := fs.String("cpuprofile", "", "write a CPU profile (development)")
 	fs.Parse(args)
+	if *cpuprof != "" {
+		f, err := os.Create(*cpuprof)
+		if err == nil {
+			pprof.StartCPUProfile(f)
+			defer pprof.StopCPUProfile()
+		}
+	}
 	j.Name = j.Entry
 	c := &Check{ID: "ADHOC", Files: strings.Split(*files, ",")}
 	ld, err := load(c, j.Wasm)
